@@ -56,14 +56,17 @@ theorem play_ok_pointer (e : Env) (s : St) (lh : Int) (b : Block) (h : (play e s
       by_cases h3 : parentMissing e s.pool [] b.txs = true
       · rw [if_pos h3] at h; cases h
       · rw [if_neg h3] at h ⊢
-        revert h
-        dsimp only
-        split
-        · intro _; rfl
-        · rename_i hne _
-          intro h
-          exact absurd h hne
-        · intro h; cases h
+        by_cases h4 : staleMember e s.pool [] b.txs = true
+        · rw [if_pos h4] at h; cases h
+        · rw [if_neg h4] at h ⊢
+          revert h
+          dsimp only
+          split
+          · intro _; rfl
+          · rename_i hne _
+            intro h
+            exact absurd h hne
+          · intro h; cases h
 
 /-- the same for the miner's own block -/
 theorem playForMiner_ok_pointer (e : Env) (s : St) (lh : Int) (b : Block) (h : (playForMiner e s lh b).2 = .ok) :
